@@ -31,6 +31,38 @@ func (g *G) MsgStress(allowPlural bool) []Cmd {
 		{expr: &Expr{Op: "+", Args: []*Expr{{Op: "int", I: 1}, {Op: "*", Args: []*Expr{{Op: "int", I: 2}, {Op: "int", I: 3}}}}}},
 		{expr: str("lit")},
 	}
+	// identifiers from a small grammar, so that base names collide with each other and with the
+	// suffixed names of other collision groups (x / x1 / x_1 / x_1_1 ...), and so that every kind of
+	// word boundary occurs (toDoItem, userIdNo, URLPath, n2x, leading and trailing underscores).
+	// Each message draws from two stems only; a variable is $ident or a key of one of three maps.
+	stems := []string{"x", "name", "toDo", "userIdNo", "aBcDe", "URLPath", "n2x", "v"}
+	sufs := []string{"", "", "1", "_1", "_2", "_1_1", "2", "12", "_", "X", "Id", "__3"}
+	myStems := []string{stems[g.Intn(len(stems))], stems[g.Intn(len(stems))]}
+	if g.Chance(60) {
+		// a tight pool: one stem, plain and with one numeric suffix, so that whole collision groups
+		// (X_1, X_2 / X_1_1, X_1_2) meet in one message
+		myStems[1] = myStems[0]
+		sufs = []string{"", g.Pick("1", "_1", "_2", "_1_1", "12")}
+	}
+	holderKeys := map[string][]string{}
+	genIdent := func() ph {
+		id := myStems[g.Intn(2)] + sufs[g.Intn(len(sufs))]
+		if g.Chance(6) {
+			id = "_" + id
+		}
+		holder := g.Pick("", "ha", "hb", "hc")
+		if holder == "" {
+			return ph{let: Cmd{K: "let", Var: id, Expr: str("[" + id + "]")}, expr: &Expr{Op: "ref", Name: id}}
+		}
+		seen := false
+		for _, k := range holderKeys[holder] {
+			seen = seen || k == id
+		}
+		if !seen {
+			holderKeys[holder] = append(holderKeys[holder], id)
+		}
+		return ph{expr: &Expr{Op: "ref", Name: holder, Access: []Access{{Kind: "key", Key: id}}}}
+	}
 	tags := []string{"<a href=\"u\">", "</a>", "<b>", "</b>", "<br/>", "<br>", "<i>", "</i>", "<span class=\"c\">", "</span>", "<img src=\"i.png\"/>", "<a href=\"other\">", "<p>", "<li>", "<em>", "<h1>", "<A>"}
 	words := []string{"Hello ", "you have ", " new items", " and ", "!", ", ", "Click ", "here", " from ", "{sp}"}
 
@@ -55,7 +87,11 @@ func (g *G) MsgStress(allowPlural bool) []Cmd {
 					out = append(out, Cmd{K: "text", Text: w})
 				}
 			case 1:
-				out = append(out, use(pool[g.Intn(len(pool))]))
+				if g.Chance(50) {
+					out = append(out, use(genIdent()))
+				} else {
+					out = append(out, use(pool[g.Intn(len(pool))]))
+				}
 			case 2:
 				out = append(out, Cmd{K: "text", Text: tags[g.Intn(len(tags))]})
 			}
@@ -81,7 +117,17 @@ func (g *G) MsgStress(allowPlural bool) []Cmd {
 		pl.Else = parts(1 + g.Intn(4))
 		msg.Body = []Cmd{pl}
 	} else {
-		msg.Body = parts(1 + g.Intn(7))
+		msg.Body = parts(1 + g.Intn(10))
+	}
+	for _, h := range []string{"ha", "hb", "hc"} {
+		if keys := holderKeys[h]; len(keys) > 0 {
+			m := &Expr{Op: "map"}
+			for _, k := range keys {
+				m.Keys = append(m.Keys, k)
+				m.Args = append(m.Args, str("["+h+"."+k+"]"))
+			}
+			lets = append(lets, Cmd{K: "let", Var: h, Expr: m})
+		}
 	}
 	return append(lets, msg)
 }
